@@ -13,7 +13,7 @@
 From Coq Require Import List NArith Arith Bool Lia.
 From Coq.Strings Require Import Byte.
 From LMBase Require Import Res ListX.
-From LMEncode Require Import EncodeModel GenAbc EncodeInst EncodeProofs EncodeInstProofs.
+From LMEncode Require Import EncodeModel GenAbc EncodeInst EncodeProofs EncodeInstProofs EncodeMem EncodeMemProofs.
 Import ListNotations.
 
 (* The generated tables of both alphabets pass the finite sweeps (all 256 byte values;
@@ -123,6 +123,77 @@ Theorem C05_encode_into : forall A, abc_ok A = true -> forall p s dst,
   (length s <> length dst -> pipeline_encode_into p A s dst = (dst, Panic 1)).
 Proof. intros A H p s dst. exact (pipeline_into_spec A p s dst H). Qed.
 
+(* ---------- encode_into on arbitrary sub-slices: placement / alignment is irrelevant ----------
+
+   The safe API accepts p.encode_into(&text[so .. so+n], &mut mem[d .. d+m]) for any
+   offsets into larger allocations, i.e. source and destination pointers of any
+   alignment (EncodeMem.v).  The kernels are modelled on lists because they use
+   unaligned loads/stores only (checked textually by the translator); the theorems below
+   are what that abstraction has to deliver, and what the correspondence check observes
+   on the implementation for every pair of offsets 0..31 from a 32-byte aligned base. *)
+
+(* Every store of every kernel stays inside the destination slice -- on success, on the
+   error exits (full blocks are stored before the error is looked at) and on a length
+   mismatch: the returned buffer has the length of the slice it was given. *)
+Theorem C05_encode_into_in_bounds : forall A, abc_ok A = true -> forall p s dst,
+  length (fst (pipeline_encode_into p A s dst)) = length dst.
+Proof. intros A H p s dst. exact (pipeline_in_bounds A p H s dst). Qed.
+
+(* The call on windows of two allocations, for all offsets and all contents: it returns
+   (no panic besides assert_eq!); the allocation keeps its length and every element
+   before and behind the destination window keeps its value; with equal lengths the
+   outcome is the specified one for the *content of the source window* and on success
+   the destination window holds exactly the symbols; with different lengths it panics
+   (site 1) and nothing at all was written. *)
+Theorem C05_encode_into_window : forall A, abc_ok A = true ->
+  forall p text so n mem d m, so + n <= length text -> d + m <= length mem ->
+  exists buf st,
+    pipeline_encode_into_at p A text so n mem d m = Ok (buf, st) /\
+    length buf = length mem /\
+    firstn d buf = firstn d mem /\
+    skipn (d + m) buf = skipn (d + m) mem /\
+    (n = m ->
+     match encode_spec A (window text so n) with
+     | Ok syms => st = Ok tt /\ window buf d m = syms
+     | Err e => st = Err e
+     | _ => False
+     end) /\
+    (n <> m -> st = Panic 1 /\ buf = mem).
+Proof. intros A H p text so n mem d m Hs Hd. exact (into_at_spec A p text so n mem d m H Hs Hd). Qed.
+
+(* Alignment is irrelevant: two calls -- on any two pipelines, with the source windows at
+   any two offsets of any two allocations, the destination windows likewise -- whose
+   source windows hold the same bytes have the same observable outcome (status, and the
+   destination window when Ok). *)
+Theorem C05_encode_into_alignment_irrelevant : forall A, abc_ok A = true ->
+  forall p p' text text' so so' n mem mem' d d' m,
+  so + n <= length text -> so' + n <= length text' ->
+  d + m <= length mem -> d' + m <= length mem' ->
+  window text so n = window text' so' n ->
+  window_outcome (pipeline_encode_into_at p A text so n mem d m) d m =
+  window_outcome (pipeline_encode_into_at p' A text' so' n mem' d' m) d' m.
+Proof.
+  intros A H p p' text text' so so' n mem mem' d d' m H1 H2 H3 H4 E.
+  exact (into_at_placement_irrelevant A p p' text text' so so' n mem mem' d d' m H H1 H2 H3 H4 E).
+Qed.
+
+(* What the driver compares an observed window call with: the outcome is the specified
+   one (so the extracted check_C05 on the window content decides the property), the
+   guard elements are untouched, and encode_raw/encode on a misaligned source slice is
+   the specified outcome too. *)
+Theorem C05_window_observation : forall A, abc_ok A = true ->
+  forall p junk text so n mem d m, so + n <= length text -> d + m <= length mem ->
+  window_outcome (pipeline_encode_into_at p A text so n mem d m) d m =
+    (if n =? m then encode_spec A (window text so n) else Panic 1) /\
+  guards_unchanged mem (pipeline_encode_into_at p A text so n mem d m) d m = true /\
+  pipeline_encode_raw_at p A junk text so n = encode_spec A (window text so n).
+Proof.
+  intros A H p junk text so n mem d m Hs Hd. split; [|split].
+  - exact (into_at_outcome_any A p text so n mem d m H Hs Hd).
+  - exact (into_at_guards A p text so n mem d m H Hs Hd).
+  - exact (raw_at_spec A p junk text so n H Hs).
+Qed.
+
 (* Round trip: displaying an accepted text reproduces it (chars and UTF-8 bytes). *)
 Theorem C05_display_encode : forall A, abc_ok A = true -> forall p junk s syms,
   pipeline_encode_raw p A junk s = Ok syms ->
@@ -189,6 +260,21 @@ Proof.
   - vm_compute. reflexivity.
 Qed.
 
+(* SSE2, source window at offset 3 of a 64-byte allocation, destination window at offset 5
+   of a 70-element one, 40 symbols (two 16-lane blocks + tail): the window holds the
+   symbols, the guards (value 9) are untouched; with a foreign byte in the second block
+   the status is Err and the guards are still untouched; a slice beyond the allocation
+   panics in the caller (site 4) *)
+Example C05_ex_window :
+  let text := repeat x2e 3 ++ repeat x47 39 ++ [x54] ++ repeat x2e 21 in
+  let mem := repeat 9%N 70 in
+  pipeline_encode_into_at PSse2 dna text 3 40 mem 5 40 =
+    Ok (repeat 9%N 5 ++ repeat 3%N 39 ++ [2%N] ++ repeat 9%N 25, Ok tt) /\
+  pipeline_encode_into_at PSse2 dna text 2 40 mem 5 40 =
+    Ok (repeat 9%N 5 ++ repeat 4%N 1 ++ repeat 3%N 31 ++ repeat 9%N 33, Err 46) /\
+  pipeline_encode_into_at PSse2 dna text 30 40 mem 5 40 = Panic 4.
+Proof. vm_compute. repeat split. Qed.
+
 (* ---------- statement pins ---------- *)
 
 Check C05_every_pipeline : forall A, A = dna \/ A = protein ->
@@ -200,3 +286,12 @@ Check C05_encode_sse2_eq_generic : forall A, abc_ok A = true ->
   forall junk junk' s, pipeline_encode_raw PSse2 A junk s = pipeline_encode_raw PGeneric A junk' s.
 Check C05_check_sound : forall A, abc_ok A = true -> forall s o,
   check_C05 A s o = true <-> Holds A s o.
+Check C05_encode_into_alignment_irrelevant : forall A, abc_ok A = true ->
+  forall p p' text text' so so' n mem mem' d d' m,
+  so + n <= length text -> so' + n <= length text' ->
+  d + m <= length mem -> d' + m <= length mem' ->
+  window text so n = window text' so' n ->
+  window_outcome (pipeline_encode_into_at p A text so n mem d m) d m =
+  window_outcome (pipeline_encode_into_at p' A text' so' n mem' d' m) d' m.
+Check C05_encode_into_in_bounds : forall A, abc_ok A = true -> forall p s dst,
+  length (fst (pipeline_encode_into p A s dst)) = length dst.
